@@ -394,6 +394,7 @@ class World:
                                latency_of=c.get("latency_of"))
         self.net = Network(self.k, self.decider)
         self.seams = Seams(self.k, self.net, c["seed"], mtu=c["mtu"], reactor_lag_max=c["reactor_lag"])
+        self.seams.wake_lag_max = c.get("wake_lag", 0.0)
         self.monitors = list(monitors)
         self.custom_ops = {}
         self.sockerrs = []         # (t0, t1, client addr): the server's sendto towards that address fails in [t0, t1)
